@@ -10,7 +10,8 @@ META = {
     "text": "Proved (Coq, closed, for every interpretation of the stage functions that respects the frame table): for the mj_forward and mj_step programs regenerated from engine_forward.c (all four integrators, no control callback, no passive flex contact), two mjData that agree on the integration state (and on the sleep bookkeeping arrays, constant while sleeping is disabled) end with identical values in every field the analysis marks as defined, whatever the other fields held; the listed outputs (positions, contacts, constraint forces, qacc, next state) are in that set. The frame table (harness/c01_table.json: reads / always-written / maybe-written fields per stage) is a hand-curated hypothesis: every run validates it on the real stage functions by filling everything outside a stage's read set with garbage. The end-to-end clause (bit-identical results after mj_copyData, mj_copyState or mj_setState into a fresh, reset or previously used mjData; forward, step, 3 steps, forward+inverse) is checked on the implementation: that part is validation, not proof. mj_inverse's internals, plugins, user callbacks and sleeping-enabled runs are not modelled.",
     "note": "Trusted: Coq kernel; translate/stages2v.py and frames2v.py; the frame table (validated by execution only); harness drivers c01_frames.c, mjgen.h; gcc. Theorems closed under the global context.",
     "assumptions": ["stage frames of harness/c01_table.json (validated by garbage injection on every run, not proved)",
-                    "no control callback, no passive flex contact, sleeping disabled"],
+                    "no control callback, no passive flex contact, sleeping disabled",
+                    "frame table validated with the dense constraint Jacobian only (sparse Jacobian: end-to-end clause only)"],
 }
 ALLF = 0x7FFFF
 TABLE = os.path.join(F.VERIF, "harness", "c01_table.json")
@@ -54,7 +55,8 @@ Eval vm_compute in (show prog_step "mjINT_IMPLICIT").
     lines, meta = [], []
     nval = 6 if ctx.tier == "quick" else 60
     for i in range(nval):
-        seed = rng.randrange(1, 10**6); feat = ALLF if i % 2 == 0 else rng.randrange(0, ALLF + 1); nb = 1 + rng.randrange(6); en = rng.choice([0, 2, 4, 6]) | (rng.choice([0, 1, 2, 3]) << 8) | (rng.choice([0, 1, 2]) << 10)
+        seed = rng.randrange(1, 10**6); feat = ALLF if i % 2 == 0 else rng.randrange(0, ALLF + 1); nb = 1 + rng.randrange(6); en = rng.choice([0, 2, 4, 6]) | (rng.choice([0, 1, 2, 3]) << 8) | (rng.choice([0, 1, 2]) << 10) | (rng.choice([0, 1, 2, 3]) << 12) | (rng.choice([0, 0, 1, 1, 3] + list(range(2, 16))) << 14) | (rng.choice([0, 0, 0, 1]) << 18)
+        en &= ~(3 << 12)   # frame table is validated with the dense Jacobian (nv < 60: auto = dense); the sparse index arrays are outside it
         for st, fr in table["frames"].items():
             R, W = fr["reads"], fr["must"]
             WA = sorted(set(fr["must"]) | set(fr["may"]))
@@ -63,7 +65,7 @@ Eval vm_compute in (show prog_step "mjINT_IMPLICIT").
     ne2e = 25 if ctx.tier == "quick" else 300
     extra = ["sensordata", "energy"]
     for i in range(ne2e):
-        seed = rng.randrange(1, 10**6); feat = ALLF if i % 3 == 0 else rng.randrange(0, ALLF + 1); nb = 1 + rng.randrange(6); en = rng.choice([0, 2, 4, 6]) | (rng.choice([0, 1, 2, 3]) << 8) | (rng.choice([0, 1, 2]) << 10)
+        seed = rng.randrange(1, 10**6); feat = ALLF if i % 3 == 0 else rng.randrange(0, ALLF + 1); nb = 1 + rng.randrange(6); en = rng.choice([0, 2, 4, 6]) | (rng.choice([0, 1, 2, 3]) << 8) | (rng.choice([0, 1, 2]) << 10) | (rng.choice([0, 1, 2, 3]) << 12) | (rng.choice([0, 0, 1, 1, 3] + list(range(2, 16))) << 14) | (rng.choice([0, 0, 0, 1]) << 18)
         for recv in range(5):
             integ = rng.choice([0, 1, 2, 3])
             D = {0: Deuler, 1: Drk4, 2: Dimpl, 3: Dimpl}[integ]
